@@ -537,7 +537,23 @@ def setter(ctx, net, m, name, arg, cid, hist):
     """apply one setter, update the model; returns False if it raised."""
     if m.dead:
         return False
+    # what the caller was handed before the change stays what it was
+    held = []
+    if name != "set_directed":
+        for q in ("similarity_measure", "adjacency"):
+            try:
+                v = getattr(net, q)
+                v = v() if callable(v) else v
+                if isinstance(v, np.ndarray):
+                    held.append((q, v, np.array(v, copy=True)))
+            except Exception:  # noqa
+                pass
     ok, r = ctx.call(getattr(net, name), arg)
+    for q, live, snap_ in held:
+        ctx.count("answers_held_across_setters")
+        if not np.array_equal(live, snap_, equal_nan=True):
+            ctx.violation(f"{m.cname}.{name}:edits-the-{q}-handed-out-before",
+                          {"history": hist, "arg": arg}, cid)
     if not ok:
         ctx.violation(f"{m.cname}.{name}:raises:{type(r).__name__}"
                       + m.icls(name == "set_link_density"),
